@@ -245,13 +245,16 @@ for pid, nm in (("C05", "c05_async_cleanup"), ("C04", "c04_async_cleanup"), ("C1
 
 SWF = ["ShardedMap::try_cleanup (the sweep's per-key decision and removal)", "ShardedMap::expiration", "ShardedMap::try_remove", "LFUPolicy::cost", "LFUPolicy::remove", "Time::is_expired", "Time::is_zero"]
 SWB = "one entry (with or without TTL, charged) resident or not; the expiry index hands out nothing or ONE arbitrary listing (any key, any conflict: proper or stale, due or not); sweep at an arbitrary instant <= 6 s later"
+# the handed-out map holds at most one listing: the collect() loop and the find_map loop inside it need 2 iterations;
+# unwinding them to the global bound multiplies the sweep's closure 30 times (the unwinding assertions stay on)
+SWU = [["extend_desugared", 3], ["Iterator>::try_fold", 3]]
 SWA = "in the sweep harnesses ExpirationMap::try_cleanup is replaced by a stand-in that hands out an arbitrary single listing: an over-approximation of the index's content; what the real try_cleanup hands out is decided by c05_em_cleanup_due"
 for pid, nm in (("C05", "c05_store_sweep"), ("C04", "c04_store_sweep"), ("C11", "c11_store_sweep"), ("C03", "c03_store_sweep")):
     IDX[pid]["assumptions"].append(SWA)
     if pid != "C05":
-        H(pid, nm, "store", SWF, SWB, timeout=7200, mem_gb=44, tier="thorough", alias_of="c05_store_sweep")
+        H(pid, nm, "store", SWF, SWB, timeout=2400, mem_gb=24, alias_of="c05_store_sweep", unwindset=SWU)
     else:
-        H(pid, nm, "store", SWF, SWB, timeout=7200, mem_gb=44, tier="thorough")
+        H(pid, nm, "store", SWF, SWB, timeout=2400, mem_gb=24, unwindset=SWU)
 
 SWFA = ["ShardedMap::try_cleanup_async (the sweep's per-key decision and removal)", "ShardedMap::expiration", "ShardedMap::try_remove", "Time::is_expired", "Time::is_zero"]
 for pid, nm in (("C05", "c05_store_sweep_async"), ("C04", "c04_store_sweep_async"), ("C11", "c11_store_sweep_async"), ("C03", "c03_store_sweep_async"), ("C19", "c19_store_sweep_async")):
